@@ -118,7 +118,7 @@ theorem agreement_asym_intgroup (IP : IntGroupParams) (hp : 1 < IP.p) (hq : 0 < 
     ∃ x y, a.xyScalar = some x ∧ b.xyScalar = some y ∧
       AgreementOutcome (intGroupSpec IP hp hq hg hctor) (msgAbs (intGroupSpec IP hp hq hg hctor) P .A ((intGroup IP).p2s pw) x) (msgAbs (intGroupSpec IP hp hq hg hctor) P .B ((intGroup IP).p2s pw) y)
         (mA.drop 1) (mB.drop 1) (a.finish mB).2 (b.finish mA).2 :=
-  C01.agreement_asym (intGroupSpec IP hp hq hg hctor) (PropAux.validParams_of_mkParams _ hP) hA hB
+  C01.agreement_asym (G := (intGroup IP)) (intGroupSpec IP hp hq hg hctor) (PropAux.validParams_of_mkParams _ hP) hA hB
 
 /-- `agreement_asym` for the shipped 1024-bit integer group (generated constants); the parameter set is any one built by `mkParams` (valid by `arb_valid`). -/
 theorem agreement_asym_1024 {mSeed nSeed sSeed : Bytes} {P : Params G1024}
@@ -129,7 +129,7 @@ theorem agreement_asym_1024 {mSeed nSeed sSeed : Bytes} {P : Params G1024}
     ∃ x y, a.xyScalar = some x ∧ b.xyScalar = some y ∧
       AgreementOutcome spec1024 (msgAbs spec1024 P .A (G1024.p2s pw) x) (msgAbs spec1024 P .B (G1024.p2s pw) y)
         (mA.drop 1) (mB.drop 1) (a.finish mB).2 (b.finish mA).2 :=
-  C01.agreement_asym spec1024 (PropAux.validParams_of_mkParams _ hP) hA hB
+  C01.agreement_asym (G := G1024) spec1024 (PropAux.validParams_of_mkParams _ hP) hA hB
 
 /-- `agreement_asym` for the shipped 2048-bit integer group (generated constants); the parameter set is any one built by `mkParams` (valid by `arb_valid`). -/
 theorem agreement_asym_2048 {mSeed nSeed sSeed : Bytes} {P : Params G2048}
@@ -140,7 +140,7 @@ theorem agreement_asym_2048 {mSeed nSeed sSeed : Bytes} {P : Params G2048}
     ∃ x y, a.xyScalar = some x ∧ b.xyScalar = some y ∧
       AgreementOutcome spec2048 (msgAbs spec2048 P .A (G2048.p2s pw) x) (msgAbs spec2048 P .B (G2048.p2s pw) y)
         (mA.drop 1) (mB.drop 1) (a.finish mB).2 (b.finish mA).2 :=
-  C01.agreement_asym spec2048 (PropAux.validParams_of_mkParams _ hP) hA hB
+  C01.agreement_asym (G := G2048) spec2048 (PropAux.validParams_of_mkParams _ hP) hA hB
 
 /-- `agreement_asym` for the shipped 3072-bit integer group (generated constants); the parameter set is any one built by `mkParams` (valid by `arb_valid`). -/
 theorem agreement_asym_3072 {mSeed nSeed sSeed : Bytes} {P : Params G3072}
@@ -151,7 +151,7 @@ theorem agreement_asym_3072 {mSeed nSeed sSeed : Bytes} {P : Params G3072}
     ∃ x y, a.xyScalar = some x ∧ b.xyScalar = some y ∧
       AgreementOutcome spec3072 (msgAbs spec3072 P .A (G3072.p2s pw) x) (msgAbs spec3072 P .B (G3072.p2s pw) y)
         (mA.drop 1) (mB.drop 1) (a.finish mB).2 (b.finish mA).2 :=
-  C01.agreement_asym spec3072 (PropAux.validParams_of_mkParams _ hP) hA hB
+  C01.agreement_asym (G := G3072) spec3072 (PropAux.validParams_of_mkParams _ hP) hA hB
 
 /-- `agreement_asym` for Ed25519 with the constants generated from the current source; the parameter set is any one built by `mkParams` (valid by `arb_valid`). -/
 theorem agreement_asym_ed25519 {mSeed nSeed sSeed : Bytes} {P : Params GEd}
@@ -162,7 +162,7 @@ theorem agreement_asym_ed25519 {mSeed nSeed sSeed : Bytes} {P : Params GEd}
     ∃ x y, a.xyScalar = some x ∧ b.xyScalar = some y ∧
       AgreementOutcome specGen (msgAbs specGen P .A (GEd.p2s pw) x) (msgAbs specGen P .B (GEd.p2s pw) y)
         (mA.drop 1) (mB.drop 1) (a.finish mB).2 (b.finish mA).2 :=
-  C01.agreement_asym specGen (PropAux.validParams_of_mkParams _ hP) hA hB
+  C01.agreement_asym (G := GEd) specGen (PropAux.validParams_of_mkParams _ hP) hA hB
 
 /-- `agreement_asym` for Ed25519 with the literal RFC 8032 constants; the parameter set is any one built by `mkParams` (valid by `arb_valid`). -/
 theorem agreement_asym_ed25519_published {mSeed nSeed sSeed : Bytes} {P : Params GEdPub}
@@ -173,7 +173,7 @@ theorem agreement_asym_ed25519_published {mSeed nSeed sSeed : Bytes} {P : Params
     ∃ x y, a.xyScalar = some x ∧ b.xyScalar = some y ∧
       AgreementOutcome specPublished (msgAbs specPublished P .A (GEdPub.p2s pw) x) (msgAbs specPublished P .B (GEdPub.p2s pw) y)
         (mA.drop 1) (mB.drop 1) (a.finish mB).2 (b.finish mA).2 :=
-  C01.agreement_asym specPublished (PropAux.validParams_of_mkParams _ hP) hA hB
+  C01.agreement_asym (G := GEdPub) specPublished (PropAux.validParams_of_mkParams _ hP) hA hB
 
 /-- **C01, two `SPAKE2_Symmetric` ends** (the unused `idB` field of the record may differ). -/
 theorem agreement_sym {G : Group} (S : GroupSpec G) {P : Params G} (hP : ValidParams S P)
@@ -196,7 +196,7 @@ theorem agreement_sym_intgroup (IP : IntGroupParams) (hp : 1 < IP.p) (hq : 0 < I
     ∃ x y, a.xyScalar = some x ∧ b.xyScalar = some y ∧
       AgreementOutcome (intGroupSpec IP hp hq hg hctor) (msgAbs (intGroupSpec IP hp hq hg hctor) P .S ((intGroup IP).p2s pw) x) (msgAbs (intGroupSpec IP hp hq hg hctor) P .S ((intGroup IP).p2s pw) y)
         (m₁.drop 1) (m₂.drop 1) (a.finish m₂).2 (b.finish m₁).2 :=
-  C01.agreement_sym (intGroupSpec IP hp hq hg hctor) (PropAux.validParams_of_mkParams _ hP) hA hB
+  C01.agreement_sym (G := (intGroup IP)) (intGroupSpec IP hp hq hg hctor) (PropAux.validParams_of_mkParams _ hP) hA hB
 
 /-- `agreement_sym` for the shipped 1024-bit integer group (generated constants); the parameter set is any one built by `mkParams` (valid by `arb_valid`). -/
 theorem agreement_sym_1024 {mSeed nSeed sSeed : Bytes} {P : Params G1024}
@@ -207,7 +207,7 @@ theorem agreement_sym_1024 {mSeed nSeed sSeed : Bytes} {P : Params G1024}
     ∃ x y, a.xyScalar = some x ∧ b.xyScalar = some y ∧
       AgreementOutcome spec1024 (msgAbs spec1024 P .S (G1024.p2s pw) x) (msgAbs spec1024 P .S (G1024.p2s pw) y)
         (m₁.drop 1) (m₂.drop 1) (a.finish m₂).2 (b.finish m₁).2 :=
-  C01.agreement_sym spec1024 (PropAux.validParams_of_mkParams _ hP) hA hB
+  C01.agreement_sym (G := G1024) spec1024 (PropAux.validParams_of_mkParams _ hP) hA hB
 
 /-- `agreement_sym` for the shipped 2048-bit integer group (generated constants); the parameter set is any one built by `mkParams` (valid by `arb_valid`). -/
 theorem agreement_sym_2048 {mSeed nSeed sSeed : Bytes} {P : Params G2048}
@@ -218,7 +218,7 @@ theorem agreement_sym_2048 {mSeed nSeed sSeed : Bytes} {P : Params G2048}
     ∃ x y, a.xyScalar = some x ∧ b.xyScalar = some y ∧
       AgreementOutcome spec2048 (msgAbs spec2048 P .S (G2048.p2s pw) x) (msgAbs spec2048 P .S (G2048.p2s pw) y)
         (m₁.drop 1) (m₂.drop 1) (a.finish m₂).2 (b.finish m₁).2 :=
-  C01.agreement_sym spec2048 (PropAux.validParams_of_mkParams _ hP) hA hB
+  C01.agreement_sym (G := G2048) spec2048 (PropAux.validParams_of_mkParams _ hP) hA hB
 
 /-- `agreement_sym` for the shipped 3072-bit integer group (generated constants); the parameter set is any one built by `mkParams` (valid by `arb_valid`). -/
 theorem agreement_sym_3072 {mSeed nSeed sSeed : Bytes} {P : Params G3072}
@@ -229,7 +229,7 @@ theorem agreement_sym_3072 {mSeed nSeed sSeed : Bytes} {P : Params G3072}
     ∃ x y, a.xyScalar = some x ∧ b.xyScalar = some y ∧
       AgreementOutcome spec3072 (msgAbs spec3072 P .S (G3072.p2s pw) x) (msgAbs spec3072 P .S (G3072.p2s pw) y)
         (m₁.drop 1) (m₂.drop 1) (a.finish m₂).2 (b.finish m₁).2 :=
-  C01.agreement_sym spec3072 (PropAux.validParams_of_mkParams _ hP) hA hB
+  C01.agreement_sym (G := G3072) spec3072 (PropAux.validParams_of_mkParams _ hP) hA hB
 
 /-- `agreement_sym` for Ed25519 with the constants generated from the current source; the parameter set is any one built by `mkParams` (valid by `arb_valid`). -/
 theorem agreement_sym_ed25519 {mSeed nSeed sSeed : Bytes} {P : Params GEd}
@@ -240,7 +240,7 @@ theorem agreement_sym_ed25519 {mSeed nSeed sSeed : Bytes} {P : Params GEd}
     ∃ x y, a.xyScalar = some x ∧ b.xyScalar = some y ∧
       AgreementOutcome specGen (msgAbs specGen P .S (GEd.p2s pw) x) (msgAbs specGen P .S (GEd.p2s pw) y)
         (m₁.drop 1) (m₂.drop 1) (a.finish m₂).2 (b.finish m₁).2 :=
-  C01.agreement_sym specGen (PropAux.validParams_of_mkParams _ hP) hA hB
+  C01.agreement_sym (G := GEd) specGen (PropAux.validParams_of_mkParams _ hP) hA hB
 
 /-- `agreement_sym` for Ed25519 with the literal RFC 8032 constants; the parameter set is any one built by `mkParams` (valid by `arb_valid`). -/
 theorem agreement_sym_ed25519_published {mSeed nSeed sSeed : Bytes} {P : Params GEdPub}
@@ -251,7 +251,7 @@ theorem agreement_sym_ed25519_published {mSeed nSeed sSeed : Bytes} {P : Params 
     ∃ x y, a.xyScalar = some x ∧ b.xyScalar = some y ∧
       AgreementOutcome specPublished (msgAbs specPublished P .S (GEdPub.p2s pw) x) (msgAbs specPublished P .S (GEdPub.p2s pw) y)
         (m₁.drop 1) (m₂.drop 1) (a.finish m₂).2 (b.finish m₁).2 :=
-  C01.agreement_sym specPublished (PropAux.validParams_of_mkParams _ hP) hA hB
+  C01.agreement_sym (G := GEdPub) specPublished (PropAux.validParams_of_mkParams _ hP) hA hB
 
 /-- **C01 with persistence, A/B.**  `a'` (resp. `b'`) is obtained from the started session `a`
 (resp. `b`) by any number of `from_serialized(serialize())` round trips -- none, one or many, on
@@ -280,7 +280,7 @@ theorem agreement_asym_with_restores_intgroup (IP : IntGroupParams) (hp : 1 < IP
     ∃ x y, a'.xyScalar = some x ∧ b'.xyScalar = some y ∧
       AgreementOutcome (intGroupSpec IP hp hq hg hctor) (msgAbs (intGroupSpec IP hp hq hg hctor) P .A ((intGroup IP).p2s pw) x) (msgAbs (intGroupSpec IP hp hq hg hctor) P .B ((intGroup IP).p2s pw) y)
         (mA.drop 1) (mB.drop 1) (a'.finish mB).2 (b'.finish mA).2 :=
-  C01.agreement_asym_with_restores (intGroupSpec IP hp hq hg hctor) (PropAux.validParams_of_mkParams _ hP) hpw hidA hidB hA hB ra rb
+  C01.agreement_asym_with_restores (G := (intGroup IP)) (intGroupSpec IP hp hq hg hctor) (PropAux.validParams_of_mkParams _ hP) hpw hidA hidB hA hB ra rb
 
 /-- `agreement_asym_with_restores` for the shipped 1024-bit integer group (generated constants); the parameter set is any one built by `mkParams` (valid by `arb_valid`). -/
 theorem agreement_asym_with_restores_1024 {mSeed nSeed sSeed : Bytes} {P : Params G1024}
@@ -293,7 +293,7 @@ theorem agreement_asym_with_restores_1024 {mSeed nSeed sSeed : Bytes} {P : Param
     ∃ x y, a'.xyScalar = some x ∧ b'.xyScalar = some y ∧
       AgreementOutcome spec1024 (msgAbs spec1024 P .A (G1024.p2s pw) x) (msgAbs spec1024 P .B (G1024.p2s pw) y)
         (mA.drop 1) (mB.drop 1) (a'.finish mB).2 (b'.finish mA).2 :=
-  C01.agreement_asym_with_restores spec1024 (PropAux.validParams_of_mkParams _ hP) hpw hidA hidB hA hB ra rb
+  C01.agreement_asym_with_restores (G := G1024) spec1024 (PropAux.validParams_of_mkParams _ hP) hpw hidA hidB hA hB ra rb
 
 /-- `agreement_asym_with_restores` for the shipped 2048-bit integer group (generated constants); the parameter set is any one built by `mkParams` (valid by `arb_valid`). -/
 theorem agreement_asym_with_restores_2048 {mSeed nSeed sSeed : Bytes} {P : Params G2048}
@@ -306,7 +306,7 @@ theorem agreement_asym_with_restores_2048 {mSeed nSeed sSeed : Bytes} {P : Param
     ∃ x y, a'.xyScalar = some x ∧ b'.xyScalar = some y ∧
       AgreementOutcome spec2048 (msgAbs spec2048 P .A (G2048.p2s pw) x) (msgAbs spec2048 P .B (G2048.p2s pw) y)
         (mA.drop 1) (mB.drop 1) (a'.finish mB).2 (b'.finish mA).2 :=
-  C01.agreement_asym_with_restores spec2048 (PropAux.validParams_of_mkParams _ hP) hpw hidA hidB hA hB ra rb
+  C01.agreement_asym_with_restores (G := G2048) spec2048 (PropAux.validParams_of_mkParams _ hP) hpw hidA hidB hA hB ra rb
 
 /-- `agreement_asym_with_restores` for the shipped 3072-bit integer group (generated constants); the parameter set is any one built by `mkParams` (valid by `arb_valid`). -/
 theorem agreement_asym_with_restores_3072 {mSeed nSeed sSeed : Bytes} {P : Params G3072}
@@ -319,7 +319,7 @@ theorem agreement_asym_with_restores_3072 {mSeed nSeed sSeed : Bytes} {P : Param
     ∃ x y, a'.xyScalar = some x ∧ b'.xyScalar = some y ∧
       AgreementOutcome spec3072 (msgAbs spec3072 P .A (G3072.p2s pw) x) (msgAbs spec3072 P .B (G3072.p2s pw) y)
         (mA.drop 1) (mB.drop 1) (a'.finish mB).2 (b'.finish mA).2 :=
-  C01.agreement_asym_with_restores spec3072 (PropAux.validParams_of_mkParams _ hP) hpw hidA hidB hA hB ra rb
+  C01.agreement_asym_with_restores (G := G3072) spec3072 (PropAux.validParams_of_mkParams _ hP) hpw hidA hidB hA hB ra rb
 
 /-- `agreement_asym_with_restores` for Ed25519 with the constants generated from the current source; the parameter set is any one built by `mkParams` (valid by `arb_valid`). -/
 theorem agreement_asym_with_restores_ed25519 {mSeed nSeed sSeed : Bytes} {P : Params GEd}
@@ -332,7 +332,7 @@ theorem agreement_asym_with_restores_ed25519 {mSeed nSeed sSeed : Bytes} {P : Pa
     ∃ x y, a'.xyScalar = some x ∧ b'.xyScalar = some y ∧
       AgreementOutcome specGen (msgAbs specGen P .A (GEd.p2s pw) x) (msgAbs specGen P .B (GEd.p2s pw) y)
         (mA.drop 1) (mB.drop 1) (a'.finish mB).2 (b'.finish mA).2 :=
-  C01.agreement_asym_with_restores specGen (PropAux.validParams_of_mkParams _ hP) hpw hidA hidB hA hB ra rb
+  C01.agreement_asym_with_restores (G := GEd) specGen (PropAux.validParams_of_mkParams _ hP) hpw hidA hidB hA hB ra rb
 
 /-- `agreement_asym_with_restores` for Ed25519 with the literal RFC 8032 constants; the parameter set is any one built by `mkParams` (valid by `arb_valid`). -/
 theorem agreement_asym_with_restores_ed25519_published {mSeed nSeed sSeed : Bytes} {P : Params GEdPub}
@@ -345,7 +345,7 @@ theorem agreement_asym_with_restores_ed25519_published {mSeed nSeed sSeed : Byte
     ∃ x y, a'.xyScalar = some x ∧ b'.xyScalar = some y ∧
       AgreementOutcome specPublished (msgAbs specPublished P .A (GEdPub.p2s pw) x) (msgAbs specPublished P .B (GEdPub.p2s pw) y)
         (mA.drop 1) (mB.drop 1) (a'.finish mB).2 (b'.finish mA).2 :=
-  C01.agreement_asym_with_restores specPublished (PropAux.validParams_of_mkParams _ hP) hpw hidA hidB hA hB ra rb
+  C01.agreement_asym_with_restores (G := GEdPub) specPublished (PropAux.validParams_of_mkParams _ hP) hpw hidA hidB hA hB ra rb
 
 /-- **C01 with persistence, symmetric.** -/
 theorem agreement_sym_with_restores {G : Group} (S : GroupSpec G) {P : Params G} (hP : ValidParams S P)
@@ -374,7 +374,7 @@ theorem agreement_sym_with_restores_intgroup (IP : IntGroupParams) (hp : 1 < IP.
     ∃ x y, a'.xyScalar = some x ∧ b'.xyScalar = some y ∧
       AgreementOutcome (intGroupSpec IP hp hq hg hctor) (msgAbs (intGroupSpec IP hp hq hg hctor) P .S ((intGroup IP).p2s pw) x) (msgAbs (intGroupSpec IP hp hq hg hctor) P .S ((intGroup IP).p2s pw) y)
         (m₁.drop 1) (m₂.drop 1) (a'.finish m₂).2 (b'.finish m₁).2 :=
-  C01.agreement_sym_with_restores (intGroupSpec IP hp hq hg hctor) (PropAux.validParams_of_mkParams _ hP) hpw hidS h₁ h₂ hA hB ra rb
+  C01.agreement_sym_with_restores (G := (intGroup IP)) (intGroupSpec IP hp hq hg hctor) (PropAux.validParams_of_mkParams _ hP) hpw hidS h₁ h₂ hA hB ra rb
 
 /-- `agreement_sym_with_restores` for the shipped 1024-bit integer group (generated constants); the parameter set is any one built by `mkParams` (valid by `arb_valid`). -/
 theorem agreement_sym_with_restores_1024 {mSeed nSeed sSeed : Bytes} {P : Params G1024}
@@ -388,7 +388,7 @@ theorem agreement_sym_with_restores_1024 {mSeed nSeed sSeed : Bytes} {P : Params
     ∃ x y, a'.xyScalar = some x ∧ b'.xyScalar = some y ∧
       AgreementOutcome spec1024 (msgAbs spec1024 P .S (G1024.p2s pw) x) (msgAbs spec1024 P .S (G1024.p2s pw) y)
         (m₁.drop 1) (m₂.drop 1) (a'.finish m₂).2 (b'.finish m₁).2 :=
-  C01.agreement_sym_with_restores spec1024 (PropAux.validParams_of_mkParams _ hP) hpw hidS h₁ h₂ hA hB ra rb
+  C01.agreement_sym_with_restores (G := G1024) spec1024 (PropAux.validParams_of_mkParams _ hP) hpw hidS h₁ h₂ hA hB ra rb
 
 /-- `agreement_sym_with_restores` for the shipped 2048-bit integer group (generated constants); the parameter set is any one built by `mkParams` (valid by `arb_valid`). -/
 theorem agreement_sym_with_restores_2048 {mSeed nSeed sSeed : Bytes} {P : Params G2048}
@@ -402,7 +402,7 @@ theorem agreement_sym_with_restores_2048 {mSeed nSeed sSeed : Bytes} {P : Params
     ∃ x y, a'.xyScalar = some x ∧ b'.xyScalar = some y ∧
       AgreementOutcome spec2048 (msgAbs spec2048 P .S (G2048.p2s pw) x) (msgAbs spec2048 P .S (G2048.p2s pw) y)
         (m₁.drop 1) (m₂.drop 1) (a'.finish m₂).2 (b'.finish m₁).2 :=
-  C01.agreement_sym_with_restores spec2048 (PropAux.validParams_of_mkParams _ hP) hpw hidS h₁ h₂ hA hB ra rb
+  C01.agreement_sym_with_restores (G := G2048) spec2048 (PropAux.validParams_of_mkParams _ hP) hpw hidS h₁ h₂ hA hB ra rb
 
 /-- `agreement_sym_with_restores` for the shipped 3072-bit integer group (generated constants); the parameter set is any one built by `mkParams` (valid by `arb_valid`). -/
 theorem agreement_sym_with_restores_3072 {mSeed nSeed sSeed : Bytes} {P : Params G3072}
@@ -416,7 +416,7 @@ theorem agreement_sym_with_restores_3072 {mSeed nSeed sSeed : Bytes} {P : Params
     ∃ x y, a'.xyScalar = some x ∧ b'.xyScalar = some y ∧
       AgreementOutcome spec3072 (msgAbs spec3072 P .S (G3072.p2s pw) x) (msgAbs spec3072 P .S (G3072.p2s pw) y)
         (m₁.drop 1) (m₂.drop 1) (a'.finish m₂).2 (b'.finish m₁).2 :=
-  C01.agreement_sym_with_restores spec3072 (PropAux.validParams_of_mkParams _ hP) hpw hidS h₁ h₂ hA hB ra rb
+  C01.agreement_sym_with_restores (G := G3072) spec3072 (PropAux.validParams_of_mkParams _ hP) hpw hidS h₁ h₂ hA hB ra rb
 
 /-- `agreement_sym_with_restores` for Ed25519 with the constants generated from the current source; the parameter set is any one built by `mkParams` (valid by `arb_valid`). -/
 theorem agreement_sym_with_restores_ed25519 {mSeed nSeed sSeed : Bytes} {P : Params GEd}
@@ -430,7 +430,7 @@ theorem agreement_sym_with_restores_ed25519 {mSeed nSeed sSeed : Bytes} {P : Par
     ∃ x y, a'.xyScalar = some x ∧ b'.xyScalar = some y ∧
       AgreementOutcome specGen (msgAbs specGen P .S (GEd.p2s pw) x) (msgAbs specGen P .S (GEd.p2s pw) y)
         (m₁.drop 1) (m₂.drop 1) (a'.finish m₂).2 (b'.finish m₁).2 :=
-  C01.agreement_sym_with_restores specGen (PropAux.validParams_of_mkParams _ hP) hpw hidS h₁ h₂ hA hB ra rb
+  C01.agreement_sym_with_restores (G := GEd) specGen (PropAux.validParams_of_mkParams _ hP) hpw hidS h₁ h₂ hA hB ra rb
 
 /-- `agreement_sym_with_restores` for Ed25519 with the literal RFC 8032 constants; the parameter set is any one built by `mkParams` (valid by `arb_valid`). -/
 theorem agreement_sym_with_restores_ed25519_published {mSeed nSeed sSeed : Bytes} {P : Params GEdPub}
@@ -444,7 +444,7 @@ theorem agreement_sym_with_restores_ed25519_published {mSeed nSeed sSeed : Bytes
     ∃ x y, a'.xyScalar = some x ∧ b'.xyScalar = some y ∧
       AgreementOutcome specPublished (msgAbs specPublished P .S (GEdPub.p2s pw) x) (msgAbs specPublished P .S (GEdPub.p2s pw) y)
         (m₁.drop 1) (m₂.drop 1) (a'.finish m₂).2 (b'.finish m₁).2 :=
-  C01.agreement_sym_with_restores specPublished (PropAux.validParams_of_mkParams _ hP) hpw hidS h₁ h₂ hA hB ra rb
+  C01.agreement_sym_with_restores (G := GEdPub) specPublished (PropAux.validParams_of_mkParams _ hP) hpw hidS h₁ h₂ hA hB ra rb
 
 /-- integer groups accept the identity, so an honest A/B exchange has only two outcomes:
 the same 32-byte key, or (both ends sent the same element) `ReflectionThwarted` at both ends -/
@@ -538,6 +538,22 @@ example :
         ((Inst.new (G := toyG) .B [1] [1] [2] toyParams ⟨[7]⟩).start.2.toOption.getD [])).2 =
       .ok (((Inst.new (G := toyG) .A [1] [1] [2] toyParams ⟨[4]⟩).start.1.finish
         ((Inst.new (G := toyG) .B [1] [1] [2] toyParams ⟨[7]⟩).start.2.toOption.getD [])).2.toOption.getD []))⟩
+
+/-- **Ed25519, edge scalars**: the hypotheses of `agreement_asym_ed25519` are satisfiable under the
+default parameter set with secret scalars `x = 0` (side A) and `y = L - 1` (side B) -- kernel
+evaluation of `arbitrary_element` and `random_scalar` -- and the theorem applies -/
+example : ∃ (P : Params GEd) (a b : Inst GEd) (mA mB : Bytes), defaultParams GEd = .ok P ∧
+    (Inst.new .A [112, 119] [] [] P ⟨List.replicate 64 0⟩).start = (a, .ok mA) ∧
+    (Inst.new .B [112, 119] [] [] P ⟨natToBE 64 (Ed.L_c - 1).toNat⟩).start = (b, .ok mB) ∧
+    a.xyScalar = some 0 ∧ b.xyScalar = some (Ed.L_c - 1) ∧
+    ∃ x y, AgreementOutcome specGen (msgAbs specGen P .A (GEd.p2s [112, 119]) x)
+        (msgAbs specGen P .B (GEd.p2s [112, 119]) y) (mA.drop 1) (mB.drop 1)
+        (a.finish mB).2 (b.finish mA).2 := by
+  obtain ⟨P, a, -, mA, -, hP, hA, xa, -, -⟩ := ed_start_edge .A [112, 119] [] []
+  obtain ⟨P', -, b, -, mB, hP', -, -, hB, xb⟩ := ed_start_edge .B [112, 119] [] []
+  rw [hP] at hP'; injection hP' with hP'; subst hP'
+  obtain ⟨x, y, -, -, h⟩ := agreement_asym_ed25519 hP hA hB
+  exact ⟨P, a, b, mA, mB, hP, hA, hB, xa, xb, x, y, h⟩
 
 /-- the persistence hypotheses are satisfiable: a started toy session can be serialised and
 restored (a non-trivial `RestoredFrom` chain) -/
